@@ -112,6 +112,21 @@ theorem digest_roundtrip {s : State} (hs : Canonical s) :
     fromDigest (digest s) = some s ∧ fromHexdigest (hexdigest s) = some s :=
   ⟨fromDigest_digest hs, fromHexdigest_hexdigest hs⟩
 
+/-- digests identify setsums: two canonical states with the same 32-byte digest (or the same hex
+    digest) are the same state — so comparing digests, as the manifest and the verifier do, is
+    comparing setsums (corollary of the round-trip; no hypothesis on how the states were built) -/
+theorem digest_injective {s t : State} (hs : Canonical s) (ht : Canonical t) :
+    (digest s = digest t → s = t) ∧ (hexdigest s = hexdigest t → s = t) := by
+  constructor
+  · intro h
+    have h1 := fromDigest_digest hs
+    rw [h, fromDigest_digest ht] at h1
+    exact (Option.some.inj h1).symm
+  · intro h
+    have h1 := fromHexdigest_hexdigest hs
+    rw [h, fromHexdigest_hexdigest ht] at h1
+    exact (Option.some.inj h1).symm
+
 /-- the published definition, from the hash words on: column `i` is the sum of the items' `i`-th
     hash words modulo the `i`-th prime (bytes → SHA3-256 → little-endian words, and vectored items,
     are compared by the harness, not modelled) -/
@@ -159,6 +174,10 @@ example : run zero [Op.rem exB] = some #v[0, 4294967278, 4294967229, 4294967099,
 /-- `(a - b) + b = a` with zero columns in `b` (where `invert_state b` is not canonical) -/
 example : (sub (hashToState exA) zero).map (fun c => add c zero) = some (hashToState exA) := by decide
 
+/-- non-vacuity of `digest_injective`: two different canonical states, hence different digests -/
+example : Canonical (hashToState exA) ∧ Canonical zero ∧ digest (hashToState exA) ≠ digest zero :=
+  ⟨canonical_hash exA_words, canonical_zero, by decide⟩
+
 end Blue.Props.C14
 
 #print axioms Blue.Props.C14.primes_from_source
@@ -176,6 +195,7 @@ end Blue.Props.C14
 #print axioms Blue.Props.C14.group_laws
 #print axioms Blue.Props.C14.laws_for_all_digests
 #print axioms Blue.Props.C14.digest_roundtrip
+#print axioms Blue.Props.C14.digest_injective
 #print axioms Blue.Props.C14.matches_definition
 #print axioms Blue.Props.C14.from_digest_unrepaired_underflows
 #print axioms Blue.Props.C14.exA_words
